@@ -44,6 +44,7 @@ type Result struct {
 	RouterLog  []string       `json:"router_log,omitempty"`
 	Tooling    string         `json:"tooling,omitempty"` // harness trouble (exit 2), not a violation
 	Live       []string       `json:"live,omitempty"`
+	post       func(*Result)  // optional check over the recorded history, run after the bubble has ended (plain goroutines, real time)
 }
 
 // Ctx is handed to a property's run function (executing as the root simulated goroutine).
@@ -193,6 +194,11 @@ func RunOne(t *testing.T, spec Spec) (res *Result) {
 			}
 		})
 	})
+	if res.post != nil {
+		post := res.post
+		res.post = nil
+		post(res)
+	}
 	if raceOnly {
 		var keep []string
 		for _, v := range res.Violations {
